@@ -377,6 +377,43 @@ func SymClock() time.Time {
 func SameInstant(a, b time.Time) bool { return a.Equal(b) }
 func BytesEq(a, b []byte) bool       { return string(a) == string(b) }
 
+// StringConsts: "Name|Type|Value" of every string constant declared in src (sorted).
+func StringConsts(src string) []string {
+	fset := token.NewFileSet()
+	f, err := parser.ParseFile(fset, "src.go", src, parser.SkipObjectResolution)
+	if err != nil {
+		return nil
+	}
+	var out []string
+	for _, d := range f.Decls {
+		gd, ok := d.(*ast.GenDecl)
+		if !ok || gd.Tok != token.CONST {
+			continue
+		}
+		for _, sp := range gd.Specs {
+			vs, ok := sp.(*ast.ValueSpec)
+			if !ok || len(vs.Names) != 1 || len(vs.Values) != 1 {
+				continue
+			}
+			typ := ""
+			if id, ok := vs.Type.(*ast.Ident); ok {
+				typ = id.Name
+			}
+			lit, ok := vs.Values[0].(*ast.BasicLit)
+			if !ok || lit.Kind != token.STRING {
+				continue
+			}
+			val, err := strconv.Unquote(lit.Value)
+			if err != nil {
+				continue
+			}
+			out = append(out, vs.Names[0].Name+"|"+typ+"|"+val)
+		}
+	}
+	sort.Strings(out)
+	return out
+}
+
 // MethodTypes: receiver type names of the declarations of method in src.
 func MethodTypes(src, method string) []string {
 	fset := token.NewFileSet()
